@@ -233,6 +233,26 @@ func Run(name string, sc Scenario, or Oracle, opts verifmc.Options) (*verifmc.Sc
 				readers = append(readers, h)
 			}
 		}
+		if !sc.Quiesce && or.Immutable {
+			// one more reader, taken right before Close while merges and persists may still be in
+			// flight: it sits on the very root the merger is working from
+			r, err := w.Reader()
+			if err != nil {
+				verifmc.Fail("reader: " + err.Error())
+			}
+			first, err := harness.ObserveFull(r, ids)
+			if err != nil {
+				verifmc.Fail("reader acquired right before Close: " + err.Error())
+			}
+			if c := harness.ContentOfFull(first); c != models[len(models)-1] {
+				verifmc.Fail(fmt.Sprintf("reader acquired right before Close shows {%s}, the abstract index is {%s}", c, models[len(models)-1]))
+			}
+			h := &held{r: r, first: first, lo: len(sc.Batches), hi: len(sc.Batches)}
+			for _, id := range r.VerifSnapshot().VerifFileSegmentIDs() {
+				h.files = append(h.files, crashfs.FileName(index.ItemKindSegment, id))
+			}
+			readers = append(readers, h)
+		}
 		_ = clientDone
 		if or.Sequential {
 			r, err := w.Reader()
